@@ -177,6 +177,7 @@ func (s *Scheduler) Run(names []string, fns []func()) {
 		stable := false
 		spins := 0
 		confirm := 0
+		idle := 0
 		for !stable {
 			parked = parked[:0]
 			running := 0
@@ -197,15 +198,11 @@ func (s *Scheduler) Run(names []string, fns []func()) {
 				runtime.Gosched()
 				continue
 			}
-			if spins%20 == 0 {
-				// a task counts as blocked only if three consecutive snapshots (>= 400us apart) show it waiting on a sync
-				// primitive: a goroutine waiting for a briefly held mutex (klog, object tracker) must not look like one
-				// that waits for a lock another task holds across a yield point
-				if s.allRunningBlocked() {
-					confirm++
-				} else {
-					confirm = 0
-				}
+			// a task counts as blocked only if three consecutive snapshots (>= 200us apart) show it waiting on a sync
+			// primitive: a goroutine waiting for a briefly held mutex (klog, object tracker) must not look like one
+			// that waits for a lock another task holds across a yield point
+			if s.allRunningBlocked() {
+				confirm++
 				if confirm >= 3 {
 					parked = parked[:0]
 					for _, t := range s.tasks {
@@ -216,8 +213,15 @@ func (s *Scheduler) Run(names []string, fns []func()) {
 					stable = true
 					break
 				}
+				time.Sleep(200 * time.Microsecond)
+				continue
 			}
-			time.Sleep(20 * time.Microsecond)
+			confirm = 0
+			// a task is really running (e.g. sleeping in a retry loop): look again later, backing off to 2.5 ms
+			if idle < 7 {
+				idle++
+			}
+			time.Sleep(20 * time.Microsecond << uint(idle))
 		}
 		if s.onStep != nil {
 			s.onStep()
